@@ -896,20 +896,29 @@ func (e *Engine) evalCall(env *Env, c *ast.CallExpr) TV {
 		if t == nil {
 			sfail("unknown type %s", exprString(c.Args[1]))
 		}
-		q, srt := e.boundVar(kid.Name, t)
+		lv := e.leaves(t)
+		var qs []string
+		var binders []string
+		rng := "true"
+		for _, l := range lv {
+			q := e.vc.fresh("q_" + kid.Name)
+			qs = append(qs, q)
+			binders = append(binders, fmt.Sprintf("(%s %s)", q, l.Sort))
+			if l.Kind == lkInt && !strings.HasPrefix(l.Sort, "(Array") {
+				w, s, _ := intInfo(l.Typ)
+				rng = and(rng, e.ar.InRange(q, w, s))
+			}
+		}
+		bv := e.unflat(t, qs)
 		e.vc.noDef++
 		body := func() string {
 			defer func() { e.vc.noDef-- }()
-			return e.evalBool(env.with(kid.Name, TV{V: &Sc{q}, T: t}), c.Args[2])
+			return e.evalBool(env.with(kid.Name, TV{V: bv, T: t}), c.Args[2])
 		}()
-		rng := "true"
-		if w, s, ok := intInfo(t); ok {
-			rng = e.ar.InRange(q, w, s)
-		}
 		if fname == "all" {
-			return TV{V: &Sc{fmt.Sprintf("(forall ((%s %s)) %s)", q, srt, implies(rng, body))}, T: boolT}
+			return TV{V: &Sc{fmt.Sprintf("(forall (%s) %s)", strings.Join(binders, " "), implies(rng, body))}, T: boolT}
 		}
-		return TV{V: &Sc{fmt.Sprintf("(exists ((%s %s)) %s)", q, srt, and(rng, body))}, T: boolT}
+		return TV{V: &Sc{fmt.Sprintf("(exists (%s) %s)", strings.Join(binders, " "), and(rng, body))}, T: boolT}
 	case "fresh":
 		x := e.eval(env, c.Args[0])
 		ref := e.flatten(x.T, x.V)[0]
@@ -963,6 +972,14 @@ func (e *Engine) evalCall(env *Env, c *ast.CallExpr) TV {
 			op = token.GEQ
 		}
 		return TV{V: &Sc{ite(e.ar.Cmp(op, as, bs, s), as, bs)}, T: a.T}
+	case "has":
+		m := e.eval(env, c.Args[0])
+		mt, ok := m.T.Underlying().(*types.Map)
+		if !ok {
+			sfail("has(m, k): m is not a map")
+		}
+		k := e.materialize(e.eval(env, c.Args[1]), mt.Key())
+		return TV{V: &Sc{e.mapPresent(env.cur, mt, m.V.(*Sc).T, e.flatten(mt.Key(), k.V)[0])}, T: boolT}
 	case "mathint":
 		return e.toMath(e.eval(env, c.Args[0]))
 	case "unixnano":
@@ -1150,7 +1167,13 @@ func (e *Engine) declareSpec(env *Env, sf *SpecFunc) {
 	for i, pt := range pts {
 		lv := e.leaves(pt)
 		if len(lv) != 1 {
-			sfail("spec %s: composite parameter", sf.Name)
+			if !(sf.Uninterp || sf.Body == nil) {
+				sfail("spec %s: composite parameter needs an uninterpreted or macro spec", sf.Name)
+			}
+			for _, l := range lv {
+				psorts = append(psorts, l.Sort)
+			}
+			continue
 		}
 		psorts = append(psorts, lv[0].Sort)
 		pn := "sp_" + sf.Name + "_" + sf.PNames[i]
@@ -1163,6 +1186,17 @@ func (e *Engine) declareSpec(env *Env, sf *SpecFunc) {
 	}
 	if sf.Uninterp || sf.Rec || sf.Body == nil {
 		e.vc.decls = append(e.vc.decls, fmt.Sprintf("(declare-fun %s (%s) %s)", sf.Name, strings.Join(psorts, " "), rl[0].Sort))
+		defer func() {
+			for _, ax := range sf.Axioms {
+				aenv := &Env{vars: map[string]TV{}, pkg: env.pkg, e: e, cur: env.cur}
+				t, err := e.tryEvalBool(aenv, ax.Expr)
+				if err != nil {
+					sfail("axiom %q of %s: %v", ax.Text, sf.Name, err)
+				}
+				e.vc.decls = append(e.vc.decls, fmt.Sprintf("(assert %s)", t))
+				e.vc.usedExt["axiom on "+sf.Name+": "+ax.Text] = true
+			}
+		}()
 		if sf.Name == "instream" {
 			for k := 0; k < replayElems; k++ {
 				e.vc.addModelTerm(fmt.Sprintf("(instream %d)", k), fmt.Sprintf("instream:%d", k))
@@ -1174,12 +1208,12 @@ func (e *Engine) declareSpec(env *Env, sf *SpecFunc) {
 		if e.ar.mode == ModeInt && rl[0].Kind == lkInt {
 			w, s, _ := intInfo(rt)
 			var qs, as []string
-			for i := range pts {
+			for i := range psorts {
 				qs = append(qs, fmt.Sprintf("(a%d %s)", i, psorts[i]))
 				as = append(as, fmt.Sprintf("a%d", i))
 			}
 			app := fmt.Sprintf("(%s %s)", sf.Name, strings.Join(as, " "))
-			if len(pts) == 0 {
+			if len(psorts) == 0 {
 				app = sf.Name
 				e.vc.decls = append(e.vc.decls, fmt.Sprintf("(assert %s)", e.ar.InRange(app, w, s)))
 			} else {
@@ -1212,10 +1246,13 @@ func (e *Engine) applySpec(env *Env, sf *SpecFunc, args []ast.Expr) TV {
 	var as []string
 	for i, a := range args {
 		tv := e.materialize(e.eval(env, a), pts[i])
+		if isUntypedNil(tv) {
+			tv = TV{V: e.zero(pts[i]), T: pts[i]}
+		}
 		if !types.Identical(tv.T.Underlying(), pts[i].Underlying()) {
 			tv = e.convertTV(tv, pts[i])
 		}
-		as = append(as, e.flatten(pts[i], tv.V)[0])
+		as = append(as, e.flatten(pts[i], tv.V)...)
 	}
 	if len(as) == 0 {
 		return TV{V: &Sc{sf.Name}, T: rt}
